@@ -136,6 +136,8 @@ def run(ctx):
         "spec, results must also be canonical (fixnum iff it fits); distinct = distinct request; non-trivial = some operand is a bignum")
     from gen import c17_leaf
     c17_leaf.regen(ctx)          # (G) coq/Gen/C17_Leaf.v from lib/srfi/151/bit.c
+    from gen import c17_bitwise
+    c17_bitwise.regen(ctx)       # (G) coq/Gen/C17_Bitwise.v from lib/srfi/151/bitwise.scm (every derived operation)
     ctx.coq_obligations("Properties_C17")
     d = ctx.build("default")
     exe = ctx.extract("C17")
@@ -288,7 +290,7 @@ BOUNDS = [0, 1, 2, 61, 62, 63, 64, 65, 66, 126, 127, 128, 129, 130, 191, 192, 19
 
 
 def outer(ctx, d, exe, rng, lat, edge, n):
-    exprs, specq, meta = [], [], []
+    exprs, specq, genq, meta = [], [], [], []
 
     def add(idx, name, args, lits=None):
         lits = lits or [scm.hexlit(a) if isinstance(a, int) and not isinstance(a, bool) else ("#t" if a else "#f") for a in args]
@@ -300,6 +302,7 @@ def outer(ctx, d, exe, rng, lat, edge, n):
             " ".join("(equal? %s %s)" % (nm, l) for nm, l in zip(names, lits)))
         exprs.append(e)
         specq.append("spec %d %s" % (idx, " ".join(zhex(z) for z in zargs)))
+        genq.append("gen %s %s" % (name, " ".join(zhex(z) for z in zargs)))
         meta.append((name, tuple(zargs)))
 
     for line in corpus_lines("outer"):
@@ -354,16 +357,25 @@ def outer(ctx, d, exe, rng, lat, edge, n):
         # reduced to a binary spec query: fold(args) op identity
         exprs.append("(%s %s)" % (OUTER[idx][1], " ".join(scm.hexlit(a) for a in args)))
         specq.append("spec %d %s %s" % (idx, zhex(want), zhex({0: -1, 1: 0, 2: 0}[idx])))
+        genq.append("gen %s %s" % (OUTER[idx][1], " ".join(zhex(a) for a in args)))
         meta.append((OUTER[idx][1] + "/nary", tuple(args)))
     so = ctx.run_model(exe, specq)
+    go = ctx.run_model(exe, [q.strip() for q in genq])
     io = scm.run_cases(d, exprs, imports="(import (srfi 151))")
-    for e, s, i, m in zip(exprs, so, io, meta):
+    ntr = {}
+    for e, s, g, i, m in zip(exprs, so, go, io, meta):
         ctx.count(1, key=m, nontrivial=any(abs(z) > FIXMAX for z in m[1]))
         ok, why = agree(s, i)
         if not ok:
             classes = "/".join(cls(z) for z in m[1][:4])
             ctx.violation("srfi151:%s:%s" % (m[0], classes), input=e, expected=s, observed=i, why=why,
                           replay="echo '(import (scheme base) (scheme write) (srfi 151)) (write %s)' | chibi-scheme /dev/stdin" % e)
+        elif s != "UNDEF" and g != s and m[0].split("/")[0] not in ("arithmetic-shift", "bit-count", "integer-length", "bit-set?"):
+            # the library is right on this input but the definition regenerated from bitwise.scm (the subject of the
+            # theorems) computes something else: the translator (or its table of primitives) no longer mirrors the source
+            ntr[m[0]] = ntr.get(m[0], 0) + 1
+            if ntr[m[0]] <= 2:
+                ctx.broken("translator:bitwise.scm:" + m[0].split("/")[0], "regenerated definition differs from the library on %s: generated=%s library=%s" % (e, g, i))
     ctx.sample(dict(kind="outer", expr=exprs[0], spec=so[0], impl=io[0]))
     ctx.sample(dict(kind="outer", expr=exprs[len(exprs) // 2], spec=so[len(exprs) // 2], impl=io[len(exprs) // 2]))
 
